@@ -60,11 +60,31 @@ pub struct Finding {
     pub count: u64,
 }
 
+/// pass-through hasher for values that are already hashes: no per-process random state, so the iteration order of the
+/// distinct-case sets - and with it every count derived from them - is the same in every run
+#[derive(Default, Clone, Copy)]
+pub struct IdHasher(u64);
+impl std::hash::Hasher for IdHasher {
+    fn finish(&self) -> u64 {
+        self.0
+    }
+    fn write(&mut self, bytes: &[u8]) {
+        for &b in bytes {
+            self.0 = self.0.rotate_left(8) ^ u64::from(b);
+        }
+    }
+    fn write_u64(&mut self, v: u64) {
+        self.0 = v;
+    }
+}
+pub type HashSetU64 = HashSet<u64, std::hash::BuildHasherDefault<IdHasher>>;
+
 /// Per-worker accumulator. Merged deterministically (order-independent operations only).
 #[derive(Default)]
 pub struct Acc {
     pub evals: u64,
-    pub nontrivial: HashSet<u64>,
+    pub nontrivial: HashSetU64,
+    /// cases seen after the distinct-case set reached its cap: NOT counted (the reported number is then a lower bound)
     pub nontrivial_overflow: u64,
     pub outcomes: BTreeMap<String, u64>,
     pub counters: BTreeMap<String, u64>,
@@ -74,7 +94,7 @@ pub struct Acc {
     pub replay_hits: u64,
 }
 
-const NONTRIVIAL_CAP: usize = 4_000_000;
+const NONTRIVIAL_CAP: usize = 48_000_000;
 
 impl Acc {
     pub fn new(filter: Option<String>) -> Self {
@@ -338,7 +358,8 @@ impl Ctx {
             .map(|k| k.fingerprint.clone())
             .collect();
 
-        let distinct = acc.nontrivial.len() as u64 + acc.nontrivial_overflow;
+        // counted exactly up to the cap of the distinct-case set; beyond it a lower bound (overflowing cases are not counted)
+        let distinct = acc.nontrivial.len() as u64;
         let mut samples: Vec<Value> = acc.samples.iter().map(|x| x.1.clone()).collect();
         if samples.is_empty() {
             samples.push(json!("(no sample recorded)"));
@@ -354,6 +375,7 @@ impl Ctx {
             "counters": acc.counters,
             "known_findings_reproduced": known_hits,
             "known_findings_not_reproduced_in_this_tier": not_reproduced,
+            "distinct_nontrivial_is_a_lower_bound": acc.nontrivial_overflow > 0,
         });
         if let (Value::Object(c), Value::Object(e)) = (&mut coverage, rep.extra) {
             for (k, v) in e {
